@@ -253,7 +253,9 @@ def build_driver(pid, cmdname, tags="verif"):
             pass
         binp = os.path.join(outdir(pid, "bin"), cmdname)
         t0 = time.time()
-        p = subprocess.run(["go", "build", "-tags", tags, "-o", binp, "./cmd/" + cmdname], cwd=h,
+        # VERIF_GO_RACE=1: development audit of the harness itself with the Go race detector
+        race = ["-race"] if os.environ.get("VERIF_GO_RACE") else []
+        p = subprocess.run(["go", "build"] + race + ["-tags", tags, "-o", binp, "./cmd/" + cmdname], cwd=h,
                            env=goenv(), stdout=subprocess.PIPE, stderr=subprocess.STDOUT, text=True)
         if p.returncode != 0:
             raise Infra("harness build failed (%s):\n%s" % (cmdname, p.stdout[-4000:]))
@@ -312,6 +314,16 @@ def load_known(pid):
     return known
 
 
+def manifest_level(pid):
+    try:
+        for c in json.load(open(os.path.join(VERIF, "MANIFEST.json")))["checks"]:
+            if c["property_id"] == pid:
+                return c["level_claimed"]["category"]
+    except (OSError, ValueError, KeyError):
+        pass
+    return None
+
+
 class Verdict:
     """Collects violations (each with a signature) and decides the exit code."""
 
@@ -331,6 +343,8 @@ class Verdict:
 
     def finish(self, level, coverage, assumptions=None):
         pid = self.pid
+        # MANIFEST.json is the single source of truth for the level a check claims
+        level = manifest_level(pid) or level
         for sig, what in sorted(self.known_hit.items()):
             log("KNOWN-FINDING: property=%s sig=%s %s" % (pid, sig, what))
         vdir = outdir(pid, "violations", clean=True)
